@@ -134,6 +134,7 @@ def check_history(desc):
     changed_between = False
     last_assembly_grid = None
     dirty = False
+    soft = []
     try:
         for si, st in enumerate(steps):
             kind = st["op"]
@@ -191,9 +192,17 @@ def check_history(desc):
                     from vlib.pbt import crash_signature
 
                     mism = "order_mismatch" if (ent["eff"][0] != W.par.quadrature.regular) else "order_match"
-                    _fail(f"assembly_raises/{cls}/{expl}/{mism}", f"step {si}: weak_form() of slot {st['slot']} ({stp['fam']} {stp.get('opn')}, assembler {stp['assembler']}, "
-                          f"parameters {expl} {ent['eff']}, global {W.par.quadrature.regular, W.par.quadrature.singular}) raised "
-                          f"{type(exc).__name__}: {str(exc)[:160]} [{crash_signature(exc)}]")
+                    sig_ = f"assembly_raises/{cls}/{expl}/{mism}"
+                    msg_ = (f"step {si}: weak_form() of slot {st['slot']} ({stp['fam']} {stp.get('opn')}, assembler {stp['assembler']}, "
+                            f"parameters {expl} {ent['eff']}, global {W.par.quadrature.regular, W.par.quadrature.singular}) raised "
+                            f"{type(exc).__name__}: {str(exc)[:160]} [{crash_signature(exc)}]")
+                    if (cls, expl, mism) == ("fmm", "explicit", "order_mismatch") and isinstance(exc, ValueError):
+                        # recorded finding D12: report it, drop the slot and keep exploring the rest of the history
+                        soft.append(("C18/" + sig_, msg_))
+                        del W.slots[st["slot"]]
+                        labels.append("continued_behind_D12")
+                        continue
+                    _fail(sig_, msg_)
                 if op.weak_form() is not wf:
                     _fail(f"weak_form_identity/{cls}", f"step {si}: repeated weak_form() returned a different object")
                 if ent["ref"] is None:
@@ -208,9 +217,16 @@ def check_history(desc):
                 err = og.relerr(M, ent["ref"])
                 if M.shape != ent["ref"].shape or err > tol:
                     mism = "order_mismatch" if (ent["eff"][0] != ent["global_at_assembly"][0]) else "order_match"
-                    _fail(f"history_dependence/{cls}/{expl}/{mism}", f"step {si}: matrix of slot {st['slot']} ({stp['fam']} {stp.get('opn')}, assembler {stp['assembler']}, "
-                          f"{expl} parameters, effective orders {ent['eff']}, global at assembly {ent['global_at_assembly']}) differs from the stateless "
-                          f"recomputation by {err:.2e}")
+                    sig_ = f"history_dependence/{cls}/{expl}/{mism}"
+                    msg_ = (f"step {si}: matrix of slot {st['slot']} ({stp['fam']} {stp.get('opn')}, assembler {stp['assembler']}, "
+                            f"{expl} parameters, effective orders {ent['eff']}, global at assembly {ent['global_at_assembly']}) differs from the stateless "
+                            f"recomputation by {err:.2e}")
+                    if (cls, expl, mism) == ("fmm", "explicit", "order_mismatch"):
+                        soft.append(("C18/" + sig_, msg_))  # D12 (the global order was used instead of the explicit one)
+                        del W.slots[st["slot"]]
+                        labels.append("continued_behind_D12")
+                        continue
+                    _fail(sig_, msg_)
                 if np.max(np.abs(M - ent["first"])) != 0 and not fmm:
                     _fail(f"cached_result_changed/{cls}", f"step {si}: the assembled matrix of slot {st['slot']} changed after later steps")
                 if kind == "strong" and stp["spaces"][0] == stp["spaces"][1] and stp.get("grid2") is None:
@@ -262,15 +278,27 @@ def check_history(desc):
                     from vlib.pbt import crash_signature
 
                     mism = "order_mismatch" if eff != W.par.quadrature.regular else "order_match"
-                    _fail(f"assembly_raises/potential_{asm}/{expl}/{mism}", f"step {si}: potential raised {type(exc).__name__}: {str(exc)[:160]} [{crash_signature(exc)}]")
+                    sig_ = f"assembly_raises/potential_{asm}/{expl}/{mism}"
+                    msg_ = f"step {si}: potential raised {type(exc).__name__}: {str(exc)[:160]} [{crash_signature(exc)}]"
+                    if (asm, expl, mism) == ("fmm", "explicit", "order_mismatch") and isinstance(exc, ValueError):
+                        soft.append(("C18/" + sig_, msg_))
+                        labels.append("continued_behind_D12")
+                        continue
+                    _fail(sig_, msg_)
                 t = _fresh_space(st["grid"], st["space"])
                 want = og.potential_operator(st["fam"], st["opn"], t, X, k, parameters=og.make_params(eff, 4), assembler="dense").evaluate(
                     bempp_cl.api.GridFunction(t, coefficients=c))
                 err = og.relerr(got, want)
                 if err > (1e-9 if asm == "fmm" else 1e-12):
                     mism = "order_mismatch" if eff != W.par.quadrature.regular else "order_match"
-                    _fail(f"history_dependence/potential_{asm}/{expl}/{mism}", f"step {si}: potential ({asm}, {expl} regular order {eff}, global {W.par.quadrature.regular}) "
-                          f"differs from the stateless recomputation by {err:.2e}")
+                    sig_ = f"history_dependence/potential_{asm}/{expl}/{mism}"
+                    msg_ = (f"step {si}: potential ({asm}, {expl} regular order {eff}, global {W.par.quadrature.regular}) "
+                            f"differs from the stateless recomputation by {err:.2e}")
+                    if (asm, expl, mism) == ("fmm", "explicit", "order_mismatch"):
+                        soft.append(("C18/" + sig_, msg_))
+                        labels.append("continued_behind_D12")
+                        continue
+                    _fail(sig_, msg_)
                 labels.append("potential_" + asm)
         # final invariant: every assembled result still equals its first value
         for slot, ent in W.slots.items():
@@ -281,7 +309,8 @@ def check_history(desc):
                     _fail("cached_result_changed/final", f"matrix of slot {slot} changed by the end of the history")
     finally:
         W.restore()
-    return {"nontrivial": changed_between and n_assemblies >= 2, "labels": sorted(set(labels)), "measured": {"assemblies": n_assemblies, "steps": len(steps)}}
+    return {"nontrivial": changed_between and n_assemblies >= 2, "labels": sorted(set(labels)), "measured": {"assemblies": n_assemblies, "steps": len(steps)},
+            "soft_failures": soft}
 
 
 CHECKS = {"history": check_history}
@@ -293,11 +322,18 @@ def shards(tier, seed=1):
     q = tier == "quick"
     n = 1 if q else 8
     groups = [["laplace", "sparse"], ["helmholtz"], ["modified", "sparse"], ["laplace"]]
+    allops = ["V", "K", "Kp", "W"]
     out = []
-    for g in (rot(groups, seed, 2) if q else groups):
-        out.append({"check": "history", "fams": g, "fmm": False, "examples": 24 * n, "budget_s": 420 * n})
-    for g in (rot(groups, seed + 1, 2) if q else groups):
-        out.append({"check": "history", "fams": g, "fmm": True, "examples": 16 * n, "budget_s": 420 * n})
+    # quick tier: two operator kinds per shard (every kind x space pair x precision is a separate ~7 s Numba specialisation)
+    allpairs = [["DP0", "DP0"], ["P1", "P1"], ["P1", "DP0"], ["DP0", "P1"]]
+    # quick tier: two operator kinds and two space pairs per shard -- every (kind, space pair, precision, assembler) is a separate
+    # ~5-7 s Numba specialisation and a shard that meets them all spends its whole budget compiling; once compiled a history costs ~50 ms
+    for i, g in enumerate(rot(groups, seed, 2) if q else groups):
+        out.append({"check": "history", "fams": g, "fmm": False, "ops": rot(allops, seed + i, 2) if q else allops,
+                    "pairs": rot(allpairs, seed + i, 2) if q else allpairs, "single": (not q) or i == 1, "examples": 150 * n, "budget_s": 300 * n})
+    for i, g in enumerate(rot(groups, seed + 1, 2) if q else groups):
+        out.append({"check": "history", "fams": g, "fmm": True, "ops": rot(allops, seed + i + 1, 2) if q else allops,
+                    "pairs": rot(allpairs, seed + i + 1, 2) if q else allpairs, "single": not q, "examples": 120 * n, "budget_s": 300 * n})
     return out
 
 
@@ -307,6 +343,8 @@ def strategy(spec):
     fams = spec["fams"]
     use_fmm = spec["fmm"]
     orders = st.sampled_from([2, 3, 4, 6])
+    pairs = [list(p) for p in spec.get("pairs", [["DP0", "DP0"], ["P1", "P1"], ["P1", "DP0"], ["DP0", "P1"]])]
+    kinds1 = sorted({p[1] for p in pairs})
 
     def create():
         @st.composite
@@ -318,15 +356,17 @@ def strategy(spec):
             if when != "none":
                 d[when] = draw(st.sampled_from(["weak", "weak", "strong", "apply"]))
             if fam == "sparse":
-                d.update({"opn": "I", "spaces": [draw(st.sampled_from(["P1", "DP0", "DP1"])), draw(st.sampled_from(["P1", "DP0"]))], "assembler": "sparse", "k": None})
+                if "pairs" in spec:
+                    d.update({"opn": "I", "spaces": list(draw(st.sampled_from(pairs))), "assembler": "sparse", "k": None})
+                else:
+                    d.update({"opn": "I", "spaces": [draw(st.sampled_from(["P1", "DP0", "DP1"])), draw(st.sampled_from(["P1", "DP0"]))], "assembler": "sparse", "k": None})
                 return d
-            d["opn"] = draw(st.sampled_from(["V", "K", "Kp", "W"]))
-            p1 = d["opn"] == "W"
-            d["spaces"] = [draw(st.sampled_from(["P1"] if p1 else ["P1", "DP0"])), draw(st.sampled_from(["P1"] if p1 else ["P1", "DP0"]))]
+            d["opn"] = draw(st.sampled_from(spec.get("ops", ["V", "K", "Kp", "W"])))
+            d["spaces"] = ["P1", "P1"] if d["opn"] == "W" else list(draw(st.sampled_from(pairs)))
             d["k"] = None if fam == "laplace" else ([1.2, 0] if fam == "modified" else draw(st.sampled_from([[1.0, 0], [1.5, 0.5]])))
             d["assembler"] = draw(st.sampled_from(["dense", "fmm", "fmm"])) if use_fmm else "dense"
             if d["assembler"] == "dense":
-                d["precision"] = draw(st.sampled_from([None, None, "single"]))
+                d["precision"] = draw(st.sampled_from([None, None, "single"] if spec.get("single", True) else [None]))
                 if draw(st.integers(0, 4)) == 0:
                     d["copy"] = True
                 if draw(st.integers(0, 5)) == 0:
@@ -342,9 +382,9 @@ def strategy(spec):
         st.fixed_dictionaries({"op": st.just("mutate_params"), "slot": st.integers(0, 3), "reg": orders, "sing": orders}),
         st.fixed_dictionaries({"op": st.just("clear_cache")}),
         st.fixed_dictionaries({"op": st.just("set_fmm"), "order": st.sampled_from([3, 5, 8]), "ncrit": st.sampled_from([50, 400])}),
-        st.fixed_dictionaries({"op": st.just("mass"), "grid": st.integers(0, 1), "space": st.sampled_from(["P1", "DP0"])}),
+        st.fixed_dictionaries({"op": st.just("mass"), "grid": st.integers(0, 1), "space": st.sampled_from(kinds1)}),
         st.fixed_dictionaries({"op": st.just("potential"), "fam": st.sampled_from([f for f in fams if f != "sparse"] or ["laplace"]),
-                               "opn": st.sampled_from(["V", "K"]), "grid": st.integers(0, 1), "space": st.sampled_from(["P1", "DP0"]),
+                               "opn": st.sampled_from([o for o in spec.get("ops", ["V", "K"]) if o in ("V", "K")] or ["V"]), "grid": st.integers(0, 1), "space": st.sampled_from(kinds1),
                                "k": st.just(None), "assembler": st.sampled_from(["dense", "fmm"] if use_fmm else ["dense"]),
                                "params": st.one_of(st.none(), st.tuples(orders).map(list))}).map(_fix_pot),
     )
